@@ -9,7 +9,7 @@
    through; [confined fe tr] says the schedule fires at no call of [tr] outside the guarded ones
    (MintCoins, SendCoinsFromModuleToAccount, keeper calls of hook messages).  The hook payload
    [fd_hook m] is arbitrary: empty, undecodable, or a tx with any signer, sequence, signature
-   validity and any list of sends.
+   validity and any list of messages (bank sends, token withdrawals of the signer).
 
    Vocabulary (Proofs/C07Proofs.v, Proofs/DepositLemmas.v):
      [processed s m s']   next_l1 advanced by one; params, bridge info, validators unchanged;
@@ -57,9 +57,11 @@ Theorem C07_fault_model_refines : ∀ c fe s m,
   no_faults fe → step_f c fe s m = step c s (MFinalizeDeposit m).
 Proof. exact step_f_nofault. Qed.
 
-(* In outcome (A) no withdrawal is recorded; (A) and (B) exclude each other. *)
-Theorem C07_credit_records_nothing : ∀ c s m s',
-  outcome_A c s m s' → wlog s' = wlog s ∧ next_l2 s' = next_l2 s ∧ dlog s' = deposit_rec m true :: dlog s.
+(* In outcome (A) no REFUND is recorded: the only withdrawal records appended are those of
+   the hook's own withdrawal messages ([user_records]: w_refund = false, consecutive sequences
+   from the old next_l2, next_l2 advanced by their number); (A) and (B) exclude each other. *)
+Theorem C07_credit_records_no_refund : ∀ c s m s',
+  outcome_A c s m s' → user_records s s' ∧ dlog s' = deposit_rec m true :: dlog s.
 Proof. exact outcome_A_logs. Qed.
 
 (* A credited deposit whose hook fails - for whatever reason: undecodable, bad signature or
@@ -142,10 +144,21 @@ Theorem C07_example_hook_fault :
         getb (bk s') 5 dA = 0%Z ∧ getseq s' 4 = 1%N.
 Proof. exact ex_hook_fault. Qed.
 
+(* A withdrawal carried by a succeeding hook is an ordinary user withdrawal (record 1, burnt);
+   when a later hook message fails nothing of it survives: the only record is the refund. *)
+Theorem C07_example_hook_withdrawals :
+  (∃ s', step ex_cfg ex_init (MFinalizeDeposit m_hookwd) = (s', Ok RSuccess) ∧
+         map (λ w, (w_seq w, w_refund w, w_amt w)) (wlog s') = [(1%N, false, 20%Z)] ∧ next_l2 s' = 2%N ∧
+         getb (bk s') 4 dA = 30%Z ∧ gets (bk s') dA = 30%Z ∧ map d_ok (dlog s') = [true]) ∧
+  (∃ s', step ex_cfg ex_init (MFinalizeDeposit m_hookwd_fail) = (s', Ok RSuccess) ∧
+         map (λ w, (w_seq w, w_refund w, w_amt w)) (wlog s') = [(1%N, true, 50%Z)] ∧ next_l2 s' = 2%N ∧
+         getb (bk s') 4 dA = 0%Z ∧ gets (bk s') dA = 0%Z ∧ map d_ok (dlog s') = [false]).
+Proof. exact ex_hook_withdrawals. Qed.
+
 Print Assumptions C07_total.
 Print Assumptions C07_total_no_fault.
 Print Assumptions C07_fault_model_refines.
-Print Assumptions C07_credit_records_nothing.
+Print Assumptions C07_credit_records_no_refund.
 Print Assumptions C07_hook_contained.
 Print Assumptions C07_gas_bound_partial.
 Print Assumptions C07_unguarded_faults_refuted.
@@ -155,3 +168,4 @@ Print Assumptions C07_balances_never_negative.
 Print Assumptions C07_funds_sane_reachable.
 Print Assumptions C07_example_mint_panic.
 Print Assumptions C07_example_hook_fault.
+Print Assumptions C07_example_hook_withdrawals.
